@@ -53,7 +53,11 @@ def case_st(draw):
             "extra_other": draw(st.booleans()), "with_part": draw(st.booleans()),
             "aspect": [draw(st.sampled_from([0.5, 1.0, 2.0])) for _ in range(3)],
             "box_units": [pu if exact else draw(st.sampled_from(LU)) for _ in range(3)],
-            "reparent": draw(st.sampled_from([None, None, "copy_recentre", "share_no_mesh"]))}
+            "reparent": draw(st.sampled_from([None, None, "copy_recentre", "share_no_mesh"])),
+            # exact data only: positions and origin are int32 counts of a small length (x 20000: squares exceed int32)
+            "int_pos": exact and draw(st.booleans()),
+            # a few rows whose position has a NaN component: they lie inside no region
+            "nan_rows": (not exact) and draw(st.integers(0, 3)) == 0}
 
 
 def _snap_ds(ds):
@@ -98,6 +102,13 @@ def extract(case, r):
         r.label("dataset_without_mesh")
     pm = positions(n_mesh, fpu)
     pp = positions(n_part, fpp)
+    K = 20000 if case.get("int_pos") else 1
+    pdt = np.int32 if case.get("int_pos") else np.float64
+    if case.get("nan_rows"):
+        for arr in (pm, pp):
+            for _ in range(min(len(arr), 3)):
+                arr[rng.randint(0, len(arr)), rng.randint(0, nvec)] = np.nan
+        r.label("rows_with_nan_position")
     # exact data: origin and size are drawn first, so that rows can be planted on each face / on the sphere
     if case["exact"]:
         o = rng.randint(-2, 3, size=nvec).astype(np.float64)
@@ -117,7 +128,7 @@ def extract(case, r):
                     arr[:k] = np.array(planted)[sel6]
     groups = {}
     mesh = {}
-    mesh["position"] = osyris.Vector(*[osyris.Array(values=pm[:, i].copy(), unit=case["pu"]) for i in range(nvec)])
+    mesh["position"] = osyris.Vector(*[osyris.Array(values=(pm[:, i] * K).astype(pdt), unit=case["pu"]) for i in range(nvec)])
     mesh["density"] = osyris.Array(values=np.arange(n_mesh, dtype=np.float64) + 0.5, unit="g/cm**3")
     mesh["velocity"] = osyris.Vector(*[osyris.Array(values=np.arange(n_mesh, dtype=np.float64) * (i + 2), unit="km/s")
                                        for i in range(nvec)])
@@ -126,7 +137,7 @@ def extract(case, r):
         groups["mesh"] = mesh
     if case["with_part"]:
         part = {}
-        part["position"] = osyris.Vector(*[osyris.Array(values=pp[:, i].copy(), unit=case["part_pu"]) for i in range(nvec)])
+        part["position"] = osyris.Vector(*[osyris.Array(values=(pp[:, i] * K).astype(pdt), unit=case["part_pu"]) for i in range(nvec)])
         part["mass"] = osyris.Array(values=np.arange(n_part, dtype=np.float64) + 100.0, unit="M_sun")
         groups["part"] = part
     if case["extra_same"]:
@@ -157,7 +168,7 @@ def extract(case, r):
     if case.get("reparent") == "copy_recentre":
         other = ds.copy()
         far = osyris.Datagroup()
-        far["position"] = osyris.Vector(*[osyris.Array(values=pm[:, i] + 1.0e3, unit=case["pu"]) for i in range(nvec)])
+        far["position"] = osyris.Vector(*[osyris.Array(values=((pm[:, i] + 1.0e3) * K).astype(pdt), unit=case["pu"]) for i in range(nvec)])
         far["density"] = osyris.Array(values=np.arange(n_mesh, dtype=np.float64) + 0.5, unit="g/cm**3")
         other["mesh"] = far
         keep_alive.append(other)
@@ -181,12 +192,14 @@ def extract(case, r):
         o = o * fpu / fou
         size = {"some": 6.0, "none": 1e-6, "all": 100.0, "tiny": 0.5}[case["region"]] * fpu / fsu
     def run_region(o, size):
-        origin = osyris.Vector(*[osyris.Array(values=o[i], unit=case["ou"]) for i in range(nvec)])
+        origin = osyris.Vector(*[osyris.Array(values=pdt(o[i] * K), unit=case["ou"]) for i in range(nvec)])
+        if case.get("int_pos"):
+            r.label("int32_positions_and_origin")
 
         def mk_size(v):
             if case["size_as"] == "Q":
-                return v * osyris.units(case["su"])
-            return osyris.Array(values=v, unit=case["su"])
+                return v * K * osyris.units(case["su"])
+            return osyris.Array(values=v * K, unit=case["su"])
         snap = _snap_ds(ds)
         with warnings.catch_warnings():
             warnings.simplefilter("ignore")
@@ -198,7 +211,7 @@ def extract(case, r):
                     bu = case.get("box_units") or [case["su"]] * 3
 
                     def mk_box(v, unit):
-                        vv = v * fsu / um.parse(unit)[0]           # the same physical size expressed in this axis' unit
+                        vv = v * K * fsu / um.parse(unit)[0]       # the same physical size expressed in this axis' unit
                         return vv * osyris.units(unit) if case["size_as"] == "Q" else osyris.Array(values=vv, unit=unit)
                     sub = osyris.extract_box(ds, dx=mk_box(sizes[0], bu[0]), dy=mk_box(sizes[1], bu[1]),
                                              dz=mk_box(sizes[2], bu[2]), origin=origin)
